@@ -6,7 +6,7 @@
 set -u
 patch="$1"; seed="${2:-1}"; shift; shift || true
 props="${*:-C01 C02 C03 C04 C05 C06 C07 C08 C09 C10 C11 C12 C13 C14 C15 C16 C17 C18 C19}"
-SR=/tmp/scratch_repo; SV=/tmp/scratch_verif
+X="${SCRATCH_SUFFIX:-}"; SR=/tmp/scratch_repo$X; SV=/tmp/scratch_verif$X
 if [ ! -d "$SR" ]; then git -C /repo worktree add -q --detach "$SR" HEAD || exit 9; cp /repo/Cargo.lock "$SR/Cargo.lock"; fi
 ( cd "$SR" && git checkout -q --detach "$(git -C /repo rev-parse HEAD)" && git checkout -- . && git clean -fdq -e target -e Cargo.lock ) || exit 9
 mkdir -p "$SV"
@@ -16,8 +16,8 @@ sed -i "s#\"/repo/#\"$SR/#g" "$SV/harness/Cargo.toml" "$SV/harness/fuzz/Cargo.to
 if ! ( cd "$SR" && git apply "$patch" ); then echo "patch does not apply"; exit 8; fi
 bad=0
 for p in $props; do
-  ( cd "$SV" && VERIF_SEED=$seed ./check "$p" quick > /tmp/try_benign.$p.out 2>&1 ); rc=$?
-  if [ $rc -ne 0 ]; then bad=1; echo "ALARM $p exit=$rc"; grep -E "^VIOLATION|signature=|INCONCLUSIVE" /tmp/try_benign.$p.out | cut -c1-240 | head -6; else echo "silent $p"; fi
+  ( cd "$SV" && VERIF_SEED=$seed ./check "$p" quick > /tmp/try_benign$X.$p.out 2>&1 ); rc=$?
+  if [ $rc -ne 0 ]; then bad=1; echo "ALARM $p exit=$rc"; grep -E "^VIOLATION|signature=|INCONCLUSIVE" /tmp/try_benign$X.$p.out | cut -c1-240 | head -6; else echo "silent $p"; fi
 done
 ( cd "$SR" && git checkout -- . )
 exit $bad
